@@ -43,6 +43,19 @@ def _die_with_parent():
         pass
 
 
+def _worker_loop(wid, task_q, res_q):
+    """pool worker: takes (property, tier, unit name) tasks until the queue is empty"""
+    import queue as _queue
+    _die_with_parent()
+    while True:
+        try:
+            task = task_q.get(timeout=0.5)
+        except _queue.Empty:
+            return
+        res_q.put(("start", wid, task[2]))
+        res_q.put(("done", wid, task[2], worker(task)))
+
+
 def main(argv=None):
     ap = argparse.ArgumentParser()
     ap.add_argument("pid")
@@ -79,60 +92,95 @@ def main(argv=None):
     ctx = mp.get_context("spawn")
     jobs = max(1, min(a.jobs, len(units)))
     known0 = load_known(pid)
-    ex = cf.ProcessPoolExecutor(max_workers=jobs, mp_context=ctx, initializer=_die_with_parent)
     stop_at = None
 
     def skipped(name):
         return {"unit": name, "verdict": "skipped", "violations": [], "unconfirmed": [], "wall_s": 0,
                 "reason": "not run to completion: a reproduced violation had already decided the run"}
+
+    # Own process pool (not concurrent.futures): the parent knows which unit each worker is running and since when, so that a unit
+    # whose solver call never returns (z3 does not always honour its timeout) is killed at a hard limit and reported inconclusive,
+    # instead of hanging the check.
+    task_q, res_q = ctx.Queue(), ctx.Queue()
+    by_name = {u.name: u for u in units}
+    todo = [units[i].name for i in order]
+    for nm in todo:
+        task_q.put((pid, tier, nm))
+    workers = {}             # wid -> [process, unit name or None, start time]
+
+    def spawn(wid):
+        p = ctx.Process(target=_worker_loop, args=(wid, task_q, res_q), daemon=True)
+        p.start()
+        workers[wid] = [p, None, None]
+
+    def report(nm, r):
+        nonlocal stop_at
+        results[nm] = r
+        if stop_at is None and any(match_known(known0, v["signature"]) is None for v in r.get("violations", [])):
+            # a new reproduced violation decides the run: short grace period for running units, drop the rest
+            stop_at = time.time() + (20 if tier == "quick" else 120)
+        if r["verdict"] == "skipped":
+            return
+        extra = f" reason={r.get('reason', '')[:300]}" if r["verdict"] != "ok" else ""
+        print(f"[{pid}] unit {nm}: {r['verdict']} paths={r.get('paths', 0)} queries={r.get('queries', 0)} "
+              f"solver={r.get('solver_s', 0):.1f}s maxq={r.get('max_query_s', 0)}s wall={r.get('wall_s', 0)}s witness_ok={r.get('witness_ok', 0)}{extra}",
+              flush=True)
+        if r.get("trace") and os.environ.get("VERIF_DEBUG"):
+            print(r["trace"])
+
+    def dead(nm, why):
+        return {"unit": nm, "verdict": "inconclusive", "reason": why, "violations": [], "unconfirmed": [], "wall_s": 0}
+
+    import queue as _queue
+    for wid in range(jobs):
+        spawn(wid)
     try:
-        futs = {ex.submit(worker, (pid, tier, units[i].name)): units[i] for i in order}
-        pending = set(futs)
-        while pending:
-            done_now, pending = cf.wait(pending, timeout=5, return_when=cf.FIRST_COMPLETED)
-            for f in done_now:
-                u = futs[f]
-                try:
-                    r = f.result()
-                except cf.CancelledError:
-                    r = skipped(u.name)
-                except Exception as e:
-                    r = {"unit": u.name, "verdict": "inconclusive", "reason": f"worker died: {e!r}", "violations": [],
-                         "unconfirmed": [], "wall_s": 0}
-                results[u.name] = r
-                if stop_at is None and any(match_known(known0, v["signature"]) is None for v in r.get("violations", [])):
-                    # a new reproduced violation decides the run: short grace period for running units, drop the rest
-                    stop_at = time.time() + (20 if tier == "quick" else 120)
-                    for g in pending:
-                        g.cancel()
-                if r["verdict"] == "skipped":
-                    continue
-                extra = f" reason={r.get('reason', '')[:300]}" if r["verdict"] != "ok" else ""
-                print(f"[{pid}] unit {u.name}: {r['verdict']} paths={r.get('paths', 0)} queries={r.get('queries', 0)} "
-                      f"solver={r.get('solver_s', 0):.1f}s maxq={r.get('max_query_s', 0)}s wall={r.get('wall_s', 0)}s witness_ok={r.get('witness_ok', 0)}{extra}",
-                      flush=True)
-                if r.get("trace") and os.environ.get("VERIF_DEBUG"):
-                    print(r["trace"])
-            if stop_at is not None and time.time() > stop_at and pending:
-                for f in pending:
-                    f.cancel()
-                    results[futs[f].name] = skipped(futs[f].name)
-                for proc in list(getattr(ex, "_processes", {}).values()):
-                    try:
-                        proc.terminate()
-                    except Exception:
-                        pass
-                pending = set()
+        while len(results) < len(todo):
+            try:
+                msg = res_q.get(timeout=1.0)
+            except _queue.Empty:
+                msg = None
+            if msg is not None:
+                kind, wid, nm = msg[0], msg[1], msg[2]
+                if kind == "start":
+                    if wid in workers:
+                        workers[wid][1], workers[wid][2] = nm, time.time()
+                elif kind == "done":
+                    if wid in workers and workers[wid][1] == nm:
+                        workers[wid][1] = None
+                    if nm not in results:
+                        report(nm, msg[3])
+            now = time.time()
+            for wid, (p, nm, ts) in list(workers.items()):
+                hard = None if nm is None else by_name[nm].budget_s + max(180, 0.25 * by_name[nm].budget_s)
+                if nm is not None and now - ts > hard:
+                    p.terminate()
+                    p.join(5)
+                    if nm not in results:
+                        report(nm, dead(nm, f"hard time limit: the unit was still running {int(now - ts)} s after it started (budget "
+                                            f"{by_name[nm].budget_s} s) - a solver call did not return; worker killed"))
+                    spawn(wid)
+                elif not p.is_alive():
+                    if nm is not None and nm not in results:
+                        report(nm, dead(nm, f"worker process died (exit code {p.exitcode})"))
+                    if len(results) < len(todo):
+                        spawn(wid)
+                    else:
+                        workers.pop(wid)
+            if stop_at is not None and time.time() > stop_at:
+                for nm in todo:
+                    results.setdefault(nm, skipped(nm))
     finally:
-        if all(f.done() for f in futs):
-            ex.shutdown(wait=True)
-        else:
-            for proc in list(getattr(ex, "_processes", {}).values()):
-                try:
-                    proc.terminate()
-                except Exception:
-                    pass
-            ex.shutdown(wait=False, cancel_futures=True)
+        for wid, (p, nm, ts) in list(workers.items()):
+            try:
+                p.terminate()
+            except Exception:
+                pass
+        for wid, (p, nm, ts) in list(workers.items()):
+            try:
+                p.join(2)
+            except Exception:
+                pass
     for u in units:
         results.setdefault(u.name, skipped(u.name))
     wall = time.time() - t0
